@@ -399,7 +399,7 @@ def run_and_judge(prop: str, tier: str, seed: int, items: List[KItem], info: dic
                 continue
             if it.mod not in runners:
                 same_mod = [x for x in items if x.mod == it.mod]
-                types = sorted({x.type for x in same_mod})
+                types = sorted({x.type for x in same_mod if x.type in x.mdl.plans})
                 runners[it.mod] = NativeRunner(it.unit.text, types, runner_ops,
                                                extra_arms(same_mod) if extra_arms else '',
                                                inner_fn(same_mod) if inner_fn else '')
